@@ -50,6 +50,51 @@ def match_items(items, patterns):
     return out
 
 
+def close_over_callees(res, mine):
+    """add the functions under contract that the listed functions call, where the callee is unambiguous from the text:
+    free functions and constants of `common` (unique names), and `self.m(..)` / `Self::m(..)` / `Type::m(..)` methods.
+    (A call through a variable of unknown type is not followed: the property map lists those callees explicitly.)"""
+    lines = open(res.unit_path, encoding='utf-8').read().split('\n')
+    ok = lambda it: it.get('lines') and it.get('kind') in ('fn', 'const') and (it.get('mode') == 'verified' or it.get('mode', '').startswith(('external_body', 'demoted')))
+    free = {}
+    meth = {}
+    for it in res.items:
+        if not ok(it):
+            continue
+        name = it.get('fn') or it['item'].split()[-1]
+        if it['item'].startswith('common :: '):
+            free.setdefault(name, []).append(it)
+        m = re.match(r'^(\w+) :: impl (?:\w+(?:<[^>]*>)? for )?(\w+) / ', it['item'])
+        if m:
+            meth.setdefault((m.group(1), m.group(2), name), []).append(it)
+    seen = set(i['item'] for i in mine)
+    work = list(mine)
+    out = list(mine)
+    while work:
+        it = work.pop()
+        if not it.get('lines') or it.get('kind') not in ('fn', 'const', 'law'):
+            continue
+        a, b = it['lines']
+        body = '\n'.join(lines[(it.get('body_line') or a) - 1:b])
+        cands = []
+        for name in set(re.findall(r'(?<![\w.:])([a-z_]\w*)\s*\(', body)) | set(re.findall(r'\b([A-Z][A-Z0-9_]{3,})\b', body)):
+            cands += free.get(name, [])
+        m = re.match(r'^(\w+) :: impl (?:\w+(?:<[^>]*>)? for )?(\w+) / ', it['item'])
+        if m:
+            mod, ty = m.group(1), m.group(2)
+            for name in set(re.findall(r'\b(?:self\.|Self::)(\w+)\s*\(', body)):
+                cands += meth.get((mod, ty, name), [])
+            for t2, name in set(re.findall(r'\b([A-Z]\w+)::(\w+)\s*\(', body)):
+                if t2 == ty:
+                    cands += meth.get((mod, ty, name), [])
+        for c in cands:
+            if c['item'] not in seen:
+                seen.add(c['item'])
+                out.append(c)
+                work.append(c)
+    return out
+
+
 def verus_phase(prop, spec, workdir, ev):
     """returns (status, refuted, undecided) ; status in ok/fatal"""
     res = verusrun.run(REPO, workdir)
@@ -60,6 +105,8 @@ def verus_phase(prop, spec, workdir, ev):
     if not res.canary_failed:
         return 'fatal', 'vacuity canary did not fail: the verifier is not checking anything', res
     mine = match_items(res.items, spec['verus'])
+    if mine:
+        mine = close_over_callees(res, mine)
     kinds = spec['kinds']
     kf_open = {k['obligation']: k for k in load_known() if k.get('status') == 'open' and k.get('property') == prop and k.get('obligation')}
     verified_items = [i for i in mine if (i['mode'] == 'verified' or i['mode'].startswith('demoted')) and i['item'] not in kf_open]
